@@ -126,7 +126,8 @@ def rdDepObs : Rd (Pred.C09.DepObs Pred.C09Av1.Md) := do
          auxPanic := ap, freshSame := fs, twinSame := ts }
 
 def c09 : Handler :=
-  mkHandler (Rd.list Rd.obytes) (Rd.list rdDepObs) (depObsOf {})
+  -- input: the SetZeroAllocation option (no effect on AV1Depacketizer: the model ignores it), payloads
+  mkHandler (do let _z ← Rd.bool; let ps ← Rd.list Rd.obytes; pure ps) (Rd.list rdDepObs) (depObsOf {})
     (fun _ os => Pred.C09.histOk false os)
 
 /-! ### c09.av1packet -/
